@@ -55,6 +55,7 @@ pub fn main(args: &[String]) -> i32 {
         "worker" => worker(args),
         "replay" => replay(&args[1]),
         "determinism" => determinism(&args[1..]),
+        "fidelity" => fidelity(&args[1..]),
         "show" => show(&args[1], args[2].parse().unwrap()),
         "fingerprints" => {
             for t in props::c13::TEMPLATES {
@@ -126,8 +127,23 @@ fn worker(args: &[String]) -> i32 {
             let _ = o.flush();
         }
         rt.digest = 0;
-        let vs = p.run_index(idx, seed, tier, &mut rt);
-        rt.stats.indices += 1;
+        let vs = if isolated {
+            match run_index_forked(p, idx, seed, tier) {
+                Ok(rep) => {
+                    rt.digest = rep.digest;
+                    merge_stats(&mut rt.stats, rep.stats);
+                    rep.violations
+                }
+                Err(e) => {
+                    rt.stats.harness_errors.push(e);
+                    vec![]
+                }
+            }
+        } else {
+            let vs = p.run_index(idx, seed, tier, &mut rt);
+            rt.stats.indices += 1;
+            vs
+        };
         if want_listing {
             // per-index digest of everything that was observed for this index
             listing.push((idx, rt.digest));
@@ -764,6 +780,100 @@ fn determinism(ids: &[String]) -> i32 {
             println!("HARNESS-ERROR: {}", h);
             bad += 1;
         }
+    }
+    if bad > 0 {
+        2
+    } else {
+        0
+    }
+}
+
+/// Fidelity of the stubbed primitives: deterministic cases (one caller at a time) sampled from every
+/// property's own generator are replayed against the STD build of the engine (real std::sync::Mutex,
+/// real once_cell, real OS threads), each in its own OS process, and must produce the identical
+/// history.  A deadlock there shows as a child that has to be killed.
+fn fidelity(ids: &[String]) -> i32 {
+    let ids: Vec<String> = if ids.is_empty() { props::all().iter().map(|p| p.meta().id.to_string()).collect() } else { ids.to_vec() };
+    let seed = seed_env();
+    let std_exe = std::env::current_exe().unwrap().with_file_name("stdcheck");
+    if !std_exe.exists() {
+        println!("HARNESS-ERROR: {} not built (bin/check fidelity builds it)", std_exe.display());
+        return 2;
+    }
+    let per_prop: u64 = std::env::var("VERIF_FIDELITY_INDICES").ok().and_then(|s| s.parse().ok()).unwrap_or(400);
+    let mut bad = 0usize;
+    for id in ids {
+        let p = props::get(&id).expect("property");
+        let mut rt = Rt::new();
+        rt.fidelity_sink = Some(vec![]);
+        let n = p.n_indices(Tier::Quick).min(per_prop);
+        for idx in 0..n {
+            let _ = p.run_index(idx, seed, Tier::Quick, &mut rt);
+        }
+        let mut pairs = rt.fidelity_sink.take().unwrap();
+        let mut seen = BTreeSet::new();
+        pairs.retain(|(c, _)| seen.insert(crate::prng::h64(serde_json::to_string(&**c).unwrap().as_bytes())));
+        let total = pairs.len();
+        let pairs = Arc::new(pairs);
+        let next = Arc::new(std::sync::atomic::AtomicUsize::new(0));
+        let results: Arc<Mutex<Vec<(usize, String)>>> = Arc::new(Mutex::new(vec![]));
+        let mut hs = vec![];
+        for _ in 0..workers_env() {
+            let (pairs, next, results, std_exe) = (pairs.clone(), next.clone(), results.clone(), std_exe.clone());
+            hs.push(std::thread::spawn(move || loop {
+                let i = next.fetch_add(1, std::sync::atomic::Ordering::SeqCst);
+                if i >= pairs.len() {
+                    break;
+                }
+                let (case, log) = &pairs[i];
+                let mut child = Command::new(&std_exe).stdin(Stdio::piped()).stdout(Stdio::piped()).stderr(Stdio::null()).spawn().expect("stdcheck");
+                {
+                    let mut si = child.stdin.take().unwrap();
+                    let _ = si.write_all(serde_json::to_string(&**case).unwrap().as_bytes());
+                }
+                let t0 = Instant::now();
+                // drain stdout concurrently (a long history does not fit into the pipe buffer)
+                let mut so = child.stdout.take().unwrap();
+                let reader = std::thread::spawn(move || {
+                    use std::io::Read;
+                    let mut out = String::new();
+                    let _ = so.read_to_string(&mut out);
+                    out
+                });
+                let verdict = loop {
+                    match child.try_wait() {
+                        Ok(Some(_)) => {
+                            let out = reader.join().unwrap_or_default();
+                            let theirs: serde_json::Value = serde_json::from_str(out.trim()).unwrap_or(serde_json::Value::Null);
+                            let ours = serde_json::to_value(log).unwrap();
+                            break if theirs == ours { String::new() } else { format!("history differs: std build {} vs simulator {}", theirs, ours) };
+                        }
+                        Ok(None) => {
+                            if t0.elapsed() > Duration::from_secs(20) {
+                                let _ = child.kill();
+                                let _ = child.wait();
+                                break "the std build HUNG (killed after 20 s): a real deadlock".to_string();
+                            }
+                            std::thread::sleep(Duration::from_millis(2));
+                        }
+                        Err(e) => break format!("wait failed: {}", e),
+                    }
+                };
+                if !verdict.is_empty() {
+                    results.lock().unwrap().push((i, verdict));
+                }
+            }));
+        }
+        for h in hs {
+            let _ = h.join();
+        }
+        let res = results.lock().unwrap();
+        println!("fidelity {}: {} distinct deterministic cases replayed on the std build (real Mutex / once_cell / OS threads, one OS process each): {} identical, {} different", id, total, total - res.len(), res.len());
+        for (i, v) in res.iter().take(3) {
+            let v: String = v.chars().take(600).collect();
+            println!("HARNESS-ERROR: fidelity {}: case {}: {}", id, serde_json::to_string(&*pairs[*i].0).unwrap().chars().take(400).collect::<String>(), v);
+        }
+        bad += res.len();
     }
     if bad > 0 {
         2
